@@ -176,6 +176,10 @@ def fde_insns(f, arch):
         if vendor_at is not None and not vendor_done and off >= vendor_at:
             out += b"\x2d"                                  # DW_CFA_AARCH64_negate_ra_state
             vendor_done = True
+        if off in f.get("remember_at", ()):
+            out += b"\x0a"                                  # DW_CFA_remember_state (early-return epilogue)
+        if off in f.get("restore_at", ()):
+            out += b"\x0b"                                  # DW_CFA_restore_state
         out += enc_row(row, regs["fp"], regs["ra"])
     return out
 
@@ -331,3 +335,109 @@ class Script:
                                                          " ".join(a), " ".join(b)))
     def text(self):
         return "\n".join(self.lines) + "\n"
+
+# ---------- PE x64: .pdata / UNWIND_INFO / text ----------
+# uinfo = dict(fpreg=None|n, fpoff=multiple of 16 (0..240), ops=[(prolog_off, op), ...], chain=None|rva, prolog=size)
+# op = ("pop", reg) | ("alloc", bytes) | ("setfp",) | ("save", reg, off) | ("savexmm", off) | ("mach", err)
+def enc_uinfo(u, chained_rt=None):
+    codes = bytearray()
+    nslots = 0
+    for off, op in u["ops"]:
+        k = op[0]
+        if k == "pop":
+            codes += bytes([off & 0xff, 0 | (op[1] << 4)]); nslots += 1
+        elif k == "alloc":
+            b = op[1]
+            if b % 8 == 0 and 8 <= b <= 128 and not op[2:]:
+                codes += bytes([off & 0xff, 2 | (((b // 8) - 1) << 4)]); nslots += 1
+            elif b % 8 == 0 and b // 8 < 65536 and not op[2:]:
+                codes += bytes([off & 0xff, 1 | (0 << 4)]) + struct.pack("<H", b // 8); nslots += 2
+            else:
+                codes += bytes([off & 0xff, 1 | (1 << 4)]) + struct.pack("<I", b); nslots += 3
+        elif k == "setfp":
+            codes += bytes([off & 0xff, 3]); nslots += 1
+        elif k == "save":
+            r, o = op[1], op[2]
+            if o % 8 == 0 and o // 8 < 65536:
+                codes += bytes([off & 0xff, 4 | (r << 4)]) + struct.pack("<H", o // 8); nslots += 2
+            else:
+                codes += bytes([off & 0xff, 5 | (r << 4)]) + struct.pack("<I", o); nslots += 3
+        elif k == "savexmm":
+            o = op[1]
+            if o % 16 == 0 and o // 16 < 65536:
+                codes += bytes([off & 0xff, 8 | (6 << 4)]) + struct.pack("<H", o // 16); nslots += 2
+            else:
+                codes += bytes([off & 0xff, 9 | (6 << 4)]) + struct.pack("<I", o); nslots += 3
+        elif k == "mach":
+            codes += bytes([off & 0xff, 10 | ((1 if op[1] else 0) << 4)]); nslots += 1
+        else:
+            raise ValueError(op)
+    flags = 4 if chained_rt is not None else 0
+    fp = u.get("fpreg") or 0
+    hdr = bytes([1 | (flags << 3), u.get("prolog", 0) & 0xff, nslots & 0xff, (fp & 0xf) | (((u.get("fpoff", 0) // 16) & 0xf) << 4)])
+    out = hdr + bytes(codes)
+    if chained_rt is not None:
+        out += struct.pack("<III", *chained_rt)
+    return out
+
+def uop_tokens(op):
+    k = op[0]
+    if k == "pop":
+        return ["pop", str(op[1])]
+    if k == "alloc":
+        return ["alloc", str(op[1])]
+    if k == "setfp":
+        return ["setfp"]
+    if k == "save":
+        return ["save", str(op[1]), str(op[2])]
+    if k == "savexmm":
+        return ["savexmm", str(op[1])]
+    return ["mach", "1" if op[1] else "0"]
+
+def build_pe(funcs, uinfos, text_lo, text_bytes, xdata_rva=0x80000):
+    """funcs = [(begin, end, uinfo_id)] sorted by begin; uinfos = {id: uinfo dict}; chain refers to ids.
+    Returns (sections list for the B view, abstract tokens for the A view)."""
+    # lay out unwind infos in .xdata
+    ids = sorted(uinfos)
+    rva = {}
+    pos = xdata_rva
+    blobs = {}
+    # two passes: sizes do not depend on the chain target's position
+    for i in ids:
+        u = uinfos[i]
+        b = enc_uinfo(u, (0, 0, 0) if u.get("chain") is not None else None)
+        rva[i] = pos
+        pos += (len(b) + 3) & ~3
+    xdata = bytearray(pos - xdata_rva)
+    for i in ids:
+        u = uinfos[i]
+        ch = u.get("chain")
+        b = enc_uinfo(u, (u.get("chain_begin", 0), u.get("chain_end", 0), rva[ch]) if ch is not None else None)
+        xdata[rva[i] - xdata_rva: rva[i] - xdata_rva + len(b)] = b
+    pdata = b"".join(struct.pack("<III", b, e, rva[u]) for (b, e, u) in funcs)
+    secs = [(".pdata", pdata, None), (".xdata", bytes(xdata), (xdata_rva, xdata_rva + len(xdata)))]
+    if text_bytes is not None:
+        secs.append((".text", bytes(text_bytes), (text_lo, text_lo + len(text_bytes))))
+    a = ["pe", str(len(funcs))]
+    for (b, e, u) in funcs:
+        a += [hx(b), hx(e), hx(rva[u])]
+    a.append(str(len(ids)))
+    for i in ids:
+        u = uinfos[i]
+        a += [hx(rva[i]), "1", str(u["fpreg"]) if u.get("fpreg") else "-", str(u.get("fpoff", 0)), str(len(u["ops"]))]
+        for off, op in u["ops"]:
+            a.append(str(off & 0xff)); a += uop_tokens(op)
+        a.append(hx(rva[u["chain"]]) if u.get("chain") is not None else "-")
+    if text_bytes is not None:
+        a += ["text", hx(text_lo), hx(text_lo + len(text_bytes)), hexs(bytes(text_bytes))]
+    else:
+        a += ["notext"]
+    return secs, a, rva
+
+def module_pe(script, mid, start, end, base_avma, base_svma, funcs, uinfos, text_lo, text_bytes, xdata_rva=0x80000):
+    secs, a, rva = build_pe(funcs, uinfos, text_lo, text_bytes, xdata_rva)
+    b = [str(len(secs))]
+    for name, data, rngs in secs:
+        b += [name, hexs(data)] + ([hx(base_svma + rngs[0]), hx(base_svma + rngs[1])] if rngs else ["-", "-"])
+    script.add("mod %s %s %s %s %s A %s B %s" % (mid, hx(start), hx(end), hx(base_avma), hx(base_svma), " ".join(a), " ".join(b)))
+    return rva
